@@ -358,7 +358,7 @@ impl BootSector {
             ans = false;
         }
         let bpb = BPBFoundation::from_bytes(&sec_data[11..36].to_vec()).expect(RCH);
-        ans |= bpb.verify();
+        ans &= bpb.verify();
         let ext32 = BPBExtension32::from_bytes(&sec_data[36..64].to_vec()).expect(RCH);
         let fat_secs = match bpb.fat_size_16 {
             [0,0] => u32::from_le_bytes(ext32.fat_size_32) as u64,
